@@ -54,5 +54,8 @@ fn main() {
         let w: Vec<&str> = line.split_whitespace().collect();
         let r = dispatch(&w);
         let _ = writeln!(out, "{}", r);
+        // one write per case line: when a later line never returns (or kills the process) every result
+        // before it has reached the reader, so the check blames exactly the offending line
+        let _ = out.flush();
     }
 }
